@@ -319,7 +319,11 @@ pub fn check_case(id: &str, text: &str, c: Config, sink: &mut Sink) -> (bool, u1
             return (false, ms);
         }
         Outcome::Panic(m) => {
-            sink.v("C07", &format!("{}:panic", id), detail(json!({"panic": m})));
+            // a panic inside the dependency's parser is one finding, whatever the input (as in hx c07)
+            match m.rsplit(" @ ").next() {
+                Some(site) if m.contains(" @ ") && site.starts_with("full_moon") => sink.v("C07", &format!("panic@{}", site), detail(json!({"panic": m, "input": text}))),
+                _ => sink.v("C07", &format!("{}:panic", id), detail(json!({"panic": m}))),
+            }
             return (false, ms);
         }
     };
@@ -428,6 +432,20 @@ pub fn run(tier: &str, _seed: u64) -> Sink {
         let (ok, ms) = check_case(&id, &it.text, c, &mut sink);
         (sink, ok, ms)
     });
+    // generated families: small grid (layout classes + the options that change decisions)
+    let gen_items = crate::gen::all();
+    let gg: Vec<(String, Config)> = g.iter().filter(|(n, _)| ["default", "w40", "w10", "w1", "w80-sp2-single-crlf", "w120-callnone-collapse"].contains(&n.as_str())).cloned().collect();
+    let gen_n = gen_items.len() * gg.len();
+    let gen_parts = par_map(gen_n, threads(), |k| {
+        let it = &gen_items[k / gg.len()];
+        let (gname, gc) = &gg[k % gg.len()];
+        let mut c = *gc;
+        c.syntax = it.syntax;
+        let mut sink = Sink::default();
+        let id = format!("corpus:{}@{}", it.rel, gname);
+        let (ok, ms) = check_case(&id, &it.text, c, &mut sink);
+        (sink, ok, ms)
+    });
     let n = items.len() * g.len();
     let parts = par_map(n, threads(), |k| {
         let it = &items[k / g.len()];
@@ -443,7 +461,7 @@ pub fn run(tier: &str, _seed: u64) -> Sink {
     let mut formatted = 0usize;
     let mut total_ms: u128 = 0;
     let mut max_ms: u128 = 0;
-    for (s, ok, ms) in parts.into_iter().chain(sweep.into_iter()) {
+    for (s, ok, ms) in parts.into_iter().chain(sweep.into_iter()).chain(gen_parts.into_iter()) {
         sink.merge(s);
         if ok {
             formatted += 1;
@@ -451,7 +469,7 @@ pub fn run(tier: &str, _seed: u64) -> Sink {
         total_ms += ms;
         max_ms = max_ms.max(ms);
     }
-    sink.s(json!({"pipeline": {"files": items.len(), "configs": g.len(), "cases": n + sweep_n, "width_sweep_cases": sweep_n, "formatted": formatted, "oracle_evaluations": formatted,
+    sink.s(json!({"pipeline": {"files": items.len(), "configs": g.len(), "cases": n + sweep_n + gen_n, "width_sweep_cases": sweep_n, "generated_programs": gen_items.len(), "generated_cases": gen_n, "formatted": formatted, "oracle_evaluations": formatted,
         "cpu_ms": total_ms as u64, "max_case_ms": max_ms as u64, "configs_used": g.iter().map(|x| x.0.clone()).collect::<Vec<_>>()}}));
     sink
 }
